@@ -55,10 +55,17 @@ def options_for(rng, name, rel, d, ncls):
     o['n_components'] = int(rng.integers(1, d + 1))
   if name.startswith('SDML'):
     o['balance_param'] = 2.0 ** -17
-  if name == 'LMNN':
-    o['max_iter'] = 4
-  if name in ('NCA', 'MLKR'):
-    o['max_iter'] = 4
+  if name in ('NCA', 'MLKR', 'LMNN'):
+    # The gradient learners embed the POINTS before taking differences, so even a translation changes their arithmetic at
+    # rounding level, and a single line-search decision of the optimiser that flips turns that into percents (2 of 250 NCA
+    # cases at VERIF_SEED=2 in the thorough tier, 4.8 % after ONE L-BFGS iteration).  Their relation is therefore judged on
+    # the model with ZERO optimiser iterations - i.e. on the initialisation, which for 'auto' / 'pca' / 'lda' is computed
+    # from the training data; that the objective and gradient which drive the iterations are the documented (translation
+    # invariant) ones is decided exactly, evaluation by evaluation, by C10.
+    if name == 'LMNN':
+      o['max_iter'] = 2
+    else:
+      o['max_iter'], o['tol'] = 1, 1e10
   return o, opt
 
 
@@ -146,11 +153,16 @@ def gen_case(rng, name, rel, directed=None):
   qi = rng.integers(len(X), size=(8, 2))
   Pq = X[qi] + np.round(rng.normal(size=(8, 2, d)) * 4) / 8.0
   Pq1 = pts(Pq)
-  with warnings.catch_warnings():
-    warnings.simplefilter('ignore')
+  with warnings.catch_warnings(record=True) as wrec:
+    warnings.simplefilter('always')
     try:
       e0 = gen.CLS[name](**o).fit(*tr['fit_args'])
       e1 = gen.CLS[name](**o).fit(*args1)
+      from sklearn.exceptions import ConvergenceWarning
+      if name.startswith('SDML') and any(issubclass(x.category, ConvergenceWarning) for x in wrec):
+        # scikit-learn's graphical lasso SAID that it stopped short of its tolerance in one of the two fits: what it returned
+        # is an unconverged iterate, which says nothing about the relation (the case is redrawn, like a RuntimeError)
+        raise RuntimeError('solver reported that it did not converge')
       ev['d0'] = dyv(e0.pair_distance(Pq))
       # scaling: the statement compares distances between the SAME points under the two models
       ev['d1'] = dyv(e1.pair_distance(Pq if rel == 'scaling' else Pq1))
